@@ -507,6 +507,7 @@ int main(int argc, char** argv) {
     if (g_guard) { signal(SIGSEGV, on_segv); signal(SIGBUS, on_segv); }
     static char outbuf[1 << 16];
     setvbuf(stdout, outbuf, _IOFBF, sizeof outbuf);
+    verif_install_death_flush();
     while (read_line(stdin)) {
         if (g_ntok == 0) { printf("\n"); continue; }
         const char* op = g_tok[0];
